@@ -174,7 +174,7 @@ func (p cfgPath) GetValue(cfg *Config, opt *options) (value, Error) {
 		}
 
 		if next == nil {
-			return nil, raiseMissing(cfg, field.String())
+			return nil, raiseMissingIn(cur, field.String())
 		}
 
 		cur = next
@@ -183,7 +183,7 @@ func (p cfgPath) GetValue(cfg *Config, opt *options) (value, Error) {
 	field := fields[0]
 	v, err := field.GetValue(opt, cur)
 	if err != nil {
-		return nil, raiseMissing(cfg, field.String())
+		return nil, raiseMissingIn(cur, field.String())
 	}
 	return v, nil
 }
@@ -363,4 +363,11 @@ func (i idxField) Remove(opts *options, elem value) (bool, Error) {
 
 	removed := sub.c.fields.delAt(i.i)
 	return removed, nil
+}
+
+// raiseMissingIn reports a field missing in the value the walk has arrived
+// at, so that the error names the full path of the field.
+func raiseMissingIn(cur value, field string) Error {
+	ctx := cur.Context()
+	return raisePathErr(ErrMissing, cur.meta(), "", ctx.pathOf(field, "."))
 }
